@@ -185,13 +185,15 @@ pub fn parse_line_number_format<'a>(
             placeholder: captures.get(1).map(|m| m.as_str()).try_into().ok(),
             alignment_spec: captures.get(3).map(|m| m.as_str()).try_into().ok(),
             width: captures.get(4).map(|m| {
-                m.as_str()
-                    .parse()
-                    .unwrap_or_else(|_| panic!("Invalid width in format string: {}", format_string))
+                m.as_str().parse().unwrap_or_else(|_| {
+                    crate::fatal(format!("Invalid width in format string: {format_string}"))
+                })
             }),
             precision: captures.get(5).map(|m| {
                 m.as_str().parse().unwrap_or_else(|_| {
-                    panic!("Invalid precision in format string: {}", format_string)
+                    crate::fatal(format!(
+                        "Invalid precision in format string: {format_string}"
+                    ))
                 })
             }),
             fmt_type: captures
@@ -299,6 +301,9 @@ pub fn pad<T: std::fmt::Display + CenterRightNumbers>(
     alignment: Align,
     precision: Option<usize>,
 ) -> String {
+    // `format!` panics on a width or precision argument above u16::MAX.
+    let width = width.min(u16::MAX as usize);
+    let precision = precision.map(|p| p.min(u16::MAX as usize));
     let space = s.center_right_space(alignment, width);
     let mut result = match precision {
         None => match alignment {
